@@ -29,13 +29,14 @@ comp!(CDeref, DerefFlaggedStorage<Self, VecStorage<Self>>);
 
 #[derive(Clone, Debug, PartialEq)]
 enum Op { Create, CreateDeferred, Delete(usize), Maintain, Insert(usize, u8), Remove(usize), Get(usize), GetMut(usize, u8),
-          EntryOrInsert(usize, u8), GetMutOrDefault(usize), RestrictOther(usize, usize), RestrictReadOther(usize, usize), RestrictOtherMut(usize, usize, u8), LendGet(usize), Drain, Clear }
+          EntryOrInsert(usize, u8), GetMutOrDefault(usize), RestrictOther(usize, usize), RestrictReadOther(usize, usize), RestrictOtherMut(usize, usize, u8), LendGet(usize), Drain, Clear, DeleteDeferred(usize), JoinMut }
 
 impl Op {
     fn json(&self) -> String {
         match self {
             Op::Create => "\"create\"".into(), Op::CreateDeferred => "\"create_deferred\"".into(), Op::Maintain => "\"maintain\"".into(),
-            Op::Drain => "\"drain\"".into(), Op::Clear => "\"clear\"".into(),
+            Op::Drain => "\"drain\"".into(), Op::Clear => "\"clear\"".into(), Op::JoinMut => "\"join_mut\"".into(),
+            Op::DeleteDeferred(a) => format!("[\"delete_deferred\",{}]", a),
             Op::Delete(a) => format!("[\"delete\",{}]", a), Op::Remove(a) => format!("[\"remove\",{}]", a), Op::Get(a) => format!("[\"get\",{}]", a),
             Op::GetMutOrDefault(a) => format!("[\"get_mut_or_default\",{}]", a), Op::LendGet(a) => format!("[\"lend_get\",{}]", a),
             Op::Insert(a, v) => format!("[\"insert\",{},{}]", a, v), Op::GetMut(a, v) => format!("[\"get_mut\",{},{}]", a, v),
@@ -50,7 +51,7 @@ impl Op {
         let p: Vec<&str> = t.split(',').map(|s| s.trim().trim_matches('"')).collect();
         let n = |i: usize| p.get(i).and_then(|s| s.parse::<usize>().ok());
         Some(match p[0] {
-            "create" => Op::Create, "create_deferred" => Op::CreateDeferred, "maintain" => Op::Maintain, "drain" => Op::Drain, "clear" => Op::Clear,
+            "create" => Op::Create, "create_deferred" => Op::CreateDeferred, "maintain" => Op::Maintain, "drain" => Op::Drain, "clear" => Op::Clear, "join_mut" => Op::JoinMut, "delete_deferred" => Op::DeleteDeferred(n(1)?),
             "delete" => Op::Delete(n(1)?), "remove" => Op::Remove(n(1)?), "get" => Op::Get(n(1)?), "get_mut_or_default" => Op::GetMutOrDefault(n(1)?),
             "lend_get" => Op::LendGet(n(1)?), "insert" => Op::Insert(n(1)?, n(2)? as u8), "get_mut" => Op::GetMut(n(1)?, n(2)? as u8),
             "entry_or_insert" => Op::EntryOrInsert(n(1)?, n(2)? as u8), "restrict_other" => Op::RestrictOther(n(1)?, n(2)?),
@@ -65,6 +66,7 @@ struct Run<C: Component> {
     world: World,
     handles: Vec<Entity>,
     alive: Vec<bool>,
+    pending: Vec<usize>,               // handles deleted through the shared resource, dying at the next maintain
     model: BTreeMap<usize, u8>,        // handle position -> component value (only for not-yet-dead handles)
     expect_events: Vec<ComponentEvent>,
     reader: Option<ReaderId<ComponentEvent>>,
@@ -80,8 +82,21 @@ trait Kind: Component + From<u8> + Val + Default + std::fmt::Debug + Copy + Part
     const TRACKED: u8; // 0 none, 1 immediate, 2 deferred
     fn reader(_w: &mut World) -> Option<ReaderId<ComponentEvent>> { None }
     fn drain_events(_w: &World, _r: &mut ReaderId<ComponentEvent>) -> Vec<ComponentEvent> { vec![] }
+    /// the non-lending mutable join `(&entities, &mut storage).join()` (None for kinds without SharedGetMutStorage)
+    fn join_mut(_w: &World) -> Option<Vec<(u32, i32, u8)>> { None }
 }
-macro_rules! kind { ($t:ty, $n:expr, 0) => { impl Kind for $t { const NAME: &'static str = $n; const TRACKED: u8 = 0; } };
+fn join_mut_of<C: Component + Val>(w: &World) -> Vec<(u32, i32, u8)> where C::Storage: specs::storage::SharedGetMutStorage<C> {
+    let ents = w.entities();
+    let mut st = w.write_storage::<C>();
+    let v = (&ents, &mut st).join().map(|(e, c)| (e.id(), e.gen().id(), c.val())).collect();
+    v
+}
+macro_rules! kind { ($t:ty, $n:expr, 0) => { impl Kind for $t { const NAME: &'static str = $n; const TRACKED: u8 = 0;
+        fn join_mut(w: &World) -> Option<Vec<(u32, i32, u8)>> { Some(join_mut_of::<$t>(w)) } } };
+    ($t:ty, $n:expr, 1) => { impl Kind for $t { const NAME: &'static str = $n; const TRACKED: u8 = 1;
+        fn join_mut(w: &World) -> Option<Vec<(u32, i32, u8)>> { Some(join_mut_of::<$t>(w)) }
+        fn reader(w: &mut World) -> Option<ReaderId<ComponentEvent>> { Some(w.write_storage::<$t>().register_reader()) }
+        fn drain_events(w: &World, r: &mut ReaderId<ComponentEvent>) -> Vec<ComponentEvent> { w.read_storage::<$t>().channel().read(r).cloned().collect() } } };
     ($t:ty, $n:expr, $tr:expr) => { impl Kind for $t { const NAME: &'static str = $n; const TRACKED: u8 = $tr;
         fn reader(w: &mut World) -> Option<ReaderId<ComponentEvent>> { Some(w.write_storage::<$t>().register_reader()) }
         fn drain_events(w: &World, r: &mut ReaderId<ComponentEvent>) -> Vec<ComponentEvent> { w.read_storage::<$t>().channel().read(r).cloned().collect() } } }; }
@@ -97,7 +112,7 @@ impl<C: Kind> Run<C> where C::Storage: Default {
         let mut world = World::new();
         world.register::<C>();
         let reader = C::reader(&mut world);
-        Run { world, handles: vec![], alive: vec![], model: BTreeMap::new(), expect_events: vec![], reader, seen: vec![], _c: Default::default() }
+        Run { world, handles: vec![], alive: vec![], pending: vec![], model: BTreeMap::new(), expect_events: vec![], reader, seen: vec![], _c: Default::default() }
     }
     fn live(&self, h: usize) -> bool { self.alive[h] }
     fn ev(&mut self, e: ComponentEvent) { if C::TRACKED != 0 { self.expect_events.push(e); } }
@@ -112,7 +127,30 @@ impl<C: Kind> Run<C> where C::Storage: Default {
                 if ok != self.live(h) { fail(prop, "C02", format!("delete_entity({:?}) ok={} but alive={}", e, ok, self.live(h)))?; }
                 if self.live(h) { self.alive[h] = false; if self.model.remove(&h).is_some() { self.ev(ComponentEvent::Removed(e.id())); } }
             }
-            Op::Maintain => { self.world.maintain(); }
+            Op::Maintain => {
+                self.world.maintain();
+                // deferred deletions take effect now; their components are purged in ascending index order
+                let mut p: Vec<usize> = std::mem::take(&mut self.pending);
+                p.sort_by_key(|h| self.handles[*h].id()); p.dedup();
+                for h in p {
+                    if self.alive[h] { self.alive[h] = false; if self.model.remove(&h).is_some() { let id = self.handles[h].id(); self.ev(ComponentEvent::Removed(id)); } }
+                }
+            }
+            Op::DeleteDeferred(h) => {
+                let e = self.handles[h];
+                let ok = self.world.entities().delete(e).is_ok();
+                if ok != self.live(h) { fail(prop, "C02", format!("Entities::delete({:?}) ok={} but alive={}", e, ok, self.live(h)))?; }
+                if self.live(h) { self.pending.push(h); }
+            }
+            Op::JoinMut => {
+                // the non-lending mutable join: exactly the live entities that have the component, ascending, each once
+                let got = match C::join_mut(&self.world) { Some(g) => g, None => return self.check(prop) };
+                let mut want: Vec<(u32, i32, u8)> = self.model.iter().filter(|(h, _)| self.alive[**h]).map(|(h, v)| (self.handles[*h].id(), self.handles[*h].gen().id(), *v)).collect();
+                want.sort();
+                if got != want { fail(prop, "C06", format!("(&entities, &mut storage).join() visited {:?}, expected {:?}", got, want))?; }
+                // a mutable fetch through the immediate wrapper reports a modification per visited item; the deferred wrapper only on deref_mut
+                if C::TRACKED == 1 { for (id, _, _) in want { self.ev(ComponentEvent::Modified(id)); } }
+            }
             Op::Insert(h, v) => {
                 let e = self.handles[h];
                 let r = self.world.write_storage::<C>().insert(e, C::from(v));
@@ -314,9 +352,9 @@ impl<C: Kind> Run<C> where C::Storage: Default {
 }
 
 fn ops_for(nh: usize) -> Vec<Op> {
-    let mut v = vec![Op::Create, Op::CreateDeferred, Op::Maintain, Op::Drain, Op::Clear];
+    let mut v = vec![Op::Create, Op::CreateDeferred, Op::Maintain, Op::Drain, Op::Clear, Op::JoinMut];
     for a in 0..nh {
-        v.push(Op::Delete(a)); v.push(Op::Insert(a, 7)); v.push(Op::Insert(a, 9)); v.push(Op::Remove(a)); v.push(Op::Get(a)); v.push(Op::GetMut(a, 5));
+        v.push(Op::Delete(a)); v.push(Op::DeleteDeferred(a)); v.push(Op::Insert(a, 7)); v.push(Op::Insert(a, 9)); v.push(Op::Remove(a)); v.push(Op::Get(a)); v.push(Op::GetMut(a, 5));
         v.push(Op::EntryOrInsert(a, 3)); v.push(Op::GetMutOrDefault(a)); v.push(Op::LendGet(a));
         for b in 0..nh { v.push(Op::RestrictOther(a, b)); v.push(Op::RestrictOtherMut(a, b, 4)); v.push(Op::RestrictReadOther(a, b)); }
     }
